@@ -101,9 +101,14 @@ DEFAULT_A = {'sentinel': 'A'}
 DEFAULT_B = ['sentinel', 'B']
 
 
-def make_app(asgi, kind, ctype, doc, hist, out, counter, propagate, prerender=False):
+def make_app(asgi, kind, ctype, doc, hist, out, counter, propagate, prerender=False, custom_resp=False):
     cls = falcon.asgi.App if asgi else falcon.App
-    app = cls()
+    if custom_resp:
+        # a Response subclass (no overrides): the app must go through render_body() itself
+        base = falcon.asgi.Response if asgi else falcon.Response
+        app = cls(response_type=type('Resp', (base,), {}))
+    else:
+        app = cls()
     if '+json' in ctype:
         h = falcon.media.JSONHandler()
         app.req_options.media_handlers['application/vnd.api+json'] = h
@@ -288,11 +293,12 @@ def run(ctx):
     n_cuts = ch.draw(4, 'n_cuts')
     cut_draws = [ch.draw(1000, 'cut') for _ in range(n_cuts)]
     prerender = [0, 0, 1, 2][ch.draw(4, 'prerender')]
+    custom_resp = ch.draw(3, 'custom_response_type') == 2
     short_reads = False     # a single read() is what the handlers do; buffered wsgi.input returns it all
 
     # ---- step 1: serialize through the real response path ---------------------------
     out1 = []
-    app1 = make_app(asgi, kind, ctype, doc, [], out1, lambda: 0, False, prerender)
+    app1 = make_app(asgi, kind, ctype, doc, [], out1, lambda: 0, False, prerender, custom_resp)
     holder = {}
     if asgi:
         conn, fin, exc, _s = asgi_request(ctx, app1, 'GET', '/doc', [], [{'type': 'http.request'}], holder,
@@ -309,6 +315,17 @@ def run(ctx):
     if exc is not None or status1 != 200:
         ctx.violate('media.serialize', 'serializing %r failed: status %r exc %r' % (doc, status1, exc), kind=kind)
         return
+    if kind == 'json':
+        try:
+            ok1 = same(json.loads(body1.decode('utf-8')), doc)
+        except ValueError:
+            ok1 = False
+        if not ok1:
+            ctx.violate('media.roundtrip', 'resp.media = %r was serialized to %r, which does not decode to the '
+                        'document (custom response type: %s, prerender: %s)' % (doc, body1[:100], custom_resp,
+                                                                               prerender),
+                        faulty=False, kind=kind, stack='asgi' if asgi else 'wsgi', what='serialized')
+            return
     if not ct1 or ct1[0] != ctype:
         ctx.violate('media.serialize', 'content type %r became %r' % (ctype, ct1), kind=kind, what='content_type')
 
@@ -377,7 +394,8 @@ def run(ctx):
         ctx.probe('empty_body')
     ctx.plan = {'stack': 'asgi' if asgi else 'wsgi', 'kind': kind, 'ctype': ctype, 'doc': doc, 'history': hist,
                 'fault': list(fault) if fault else None, 'body': body1.decode('utf-8', 'replace')[:200],
-                'propagate': propagate, 'cuts': n_cuts, 'short_reads': short_reads}
+                'propagate': propagate, 'cuts': n_cuts, 'short_reads': short_reads,
+                'prerender': prerender, 'custom_response_type': custom_resp}
     ctx.plan_key = json.dumps(ctx.plan, sort_keys=True, default=repr)
 
     # ---- step 2: send the bytes back ------------------------------------------------------
